@@ -54,8 +54,10 @@ NONTRIVIAL_S = {
     "C01": lambda sc, f: sc["n"] >= 2,
     "C10": lambda sc, f: any(s["flag"] for s in sc["specs"]),
     "C13": lambda sc, f: any(s.get("dbg") for s in sc["specs"]),
+    "C20": lambda sc, f: bool(sc.get("nested")),
 }
 RULE_S = {
+    "C20": "same generator, every scenario described in an inner DAG that the executed DAG calls (attributes, flags, tags, debug nodes, selections on the spliced ids)",
     "C13": "same generator, every scenario with debug nodes (flag on/off at call time, independently on/off while described; plain, nested, executors)",
     "C02": "random DAG scenarios under scripted completion orders; non-trivial: >=2 node starts and >=1 dependency edge",
     "C03": "same generator; non-trivial: >=2 nodes",
@@ -85,6 +87,11 @@ def scenario_stream(seed, count, pid, with_corpus=True):
         sc = S.gen(rng, **kw)
         if pid == "C13" and sc.get("op") != "setup":
             S.mark_debug(rng, sc, p=0.3)
+        if pid == "C20" and sc.get("op") != "setup" and not sc.get("handbuilt"):
+            # every scenario described in an INNER DAG that the executed DAG calls; half of them with debug nodes
+            sc["nested"] = True
+            if rng.random() < 0.5 and not any(s_.get("dbg") for s_ in sc["specs"]):
+                S.mark_debug(rng, sc, p=0.3)
         yield k, sc
 
 
@@ -248,6 +255,18 @@ def run_S(pid, tier, seed, cp_mode="real", props_monitored=None, extra_fail_sig=
     return coverage, failures, searcher
 
 
+def with_S(run):
+    """... and the scheduler slice on DAGs with debug nodes: which nodes really execute, and with which values."""
+    def wrapped(pid, tier, seed):
+        cov, fs, searcher = run(pid, tier, seed)
+        covs, fss, _ = run_S(pid, tier, seed)
+        cov["scheduler_runs"] = {k: v for k, v in covs.items() if k not in ("samples",)}
+        cov["evaluations"] += covs["evaluations"]
+        cov["rule"] += "; plus slice S: " + covs["rule"]
+        return cov, fs + fss, searcher
+    return wrapped
+
+
 def known_sig(pid, sig):
     return any(k.get("property") == pid and k.get("signature") == sig and k.get("status") == "known"
                for k in common.load_known())
@@ -324,8 +343,25 @@ def reg(pid, theorems, run, assumptions):
 
 COMMON_S_THEOREMS = ["Props.acceptor_exact", "Props.acceptance_sound"]
 
+def run_S_and_nested_supply(pid, tier, seed):
+    """C02 across a sub-DAG call: what a parameter of the inner DAG is supplied with is a dependency of the inner nodes."""
+    cov, fs, searcher = run_S(pid, tier, seed)
+    rng = random.Random("C02/nested/%d" % seed)
+    n_ = 40 if tier == "quick" else 600
+    for _ in range(n_):
+        case, problems = S.nested_supply(random.Random(rng.randrange(1 << 62)))
+        if problems:
+            fs.append(Failure("counterexample", "inner-node-of-a-called-dag-ahead-of-the-supplied-argument", case, dict(problems=problems), slice_="N"))
+            if len([f for f in fs if f.slice == "N"]) >= 3:
+                break
+    cov["nested_supply_cases"] = n_
+    cov["evaluations"] += n_
+    cov["rule"] += "; plus an inner DAG with defaulted parameters supplied by slow producer nodes / constants / not at all (entry order and received values of the inner nodes)"
+    return cov, fs, searcher
+
+
 reg("C02", ["Props.C02_deps_before_start", "Props.C02_values_at_start", "Props.C01_core"] + COMMON_S_THEOREMS,
-    lambda pid, tier, seed: run_S(pid, tier, seed), ASSUME_S)
+    run_S_and_nested_supply, ASSUME_S)
 def run_S_and_H(pid, tier, seed):
     """C03 also quantifies over the position of the call in a history on one instance."""
     cov, fs, searcher = run_S(pid, tier, seed)
@@ -681,6 +717,33 @@ def choose_selection(rng, sc, pos, preds):
         nonroots = [i for i in range(n) if i not in roots]
         if nonroots:
             R = [("str", "n%d" % rng.choice(nonroots))]
+    elif r < 0.11:
+        # an EMPTY list is a selection too — of nothing: no root at all (it is not "no restriction"), alone or next to
+        # targets (which are then outside the selection) or exclusions
+        R = []
+        try:
+            resolve(R)
+        except ValueError:
+            return R, X, T, None
+        r2 = rng.random()
+        if r2 < 0.4:
+            T = [G.alias_for(rng, sc, rng.randrange(n))]
+        elif r2 < 0.55:
+            X = []
+        elif r2 < 0.7:
+            T = []
+        return R, X, T, resolve
+    elif r < 0.15:
+        empties = rng.choice([("X",), ("T",), ("X", "T")])
+        X = [] if "X" in empties else X
+        T = [] if "T" in empties else T
+        if roots and rng.random() < 0.5:
+            R = [G.alias_for(rng, sc, rng.choice(roots))]
+        try:
+            resolve(R)
+        except ValueError:
+            return R, X, T, None
+        return R, X, T, resolve
     try:
         Rr = resolve(R)
     except ValueError:
@@ -752,7 +815,7 @@ def run_G(pid, tier, seed):
             if any(len(ps) > 1 for ps in preds):
                 nontrivial.add(S.structural_hash(dict(sc)))
         # reconfigure priorities
-        if pid in ("C06", "C07") and rng.random() < 0.5 and sc["n"] >= 1:
+        if pid in ("C06", "C07") and (rng.random() < 0.5 or isinstance(k, str) or k < 12) and sc["n"] >= 1:
             stats["cp_after_config"] += 1
             P_ = [pos["n%d" % i] for i in range(sc["n"])]
             all_tags = sorted({t for s_ in sc["specs"] if s_["tag"] is not None
@@ -770,54 +833,78 @@ def run_G(pid, tier, seed):
                 if r_ >= 0.6 and r_ < 0.95:
                     ent["is_sequential"] = rng.random() < 0.5
                 keys.append((key, ent))
-            conf_ = {"nodes": dict(keys)}
-            try:
-                expanded = [(i, ent) for key, ent in keys for i in G.resolve_alias(sc, ("str", key))]
-                want_refused = len({i for i, _ in expanded}) != len(expanded)
-            except ValueError:
-                expanded, want_refused = [], True
-            seq0 = [bool(d.exec_nodes[x].is_sequential) for x in ids_]
-            try:
-                d.config_from_dict(conf_)
-                if rng.random() < 0.3:
-                    d.config_from_dict(conf_)     # the same dict object given again: still the same configuration
-                real_cfg = "OK"
-            except ValueError:
-                real_cfg = "REFUSED"
-            if len(keys) > 1:
-                stats["cp_after_config_multi_entry"] = stats.get("cp_after_config_multi_entry", 0) + 1
-            if any(not k_.startswith("n") or not k_[1:].isdigit() for k_, _ in keys):
-                stats["cp_after_config_by_tag"] = stats.get("cp_after_config_by_tag", 0) + 1
-            want_prio, want_seq = list(prio), list(seq0)
-            if want_refused:
-                stats["config_refused"] = stats.get("config_refused", 0) + 1
-                if real_cfg == "OK":
-                    bad("ambiguous-configuration-accepted", sc, config=conf_)
-            elif real_cfg == "REFUSED":
-                failures.append(Failure("correspondence", "G-valid-configuration-refused", sc, dict(config=conf_), slice_="G"))
-            else:
-                for i, ent in expanded:
-                    if "priority" in ent:
-                        want_prio[P_[i]] = ent["priority"]
-                    if "is_sequential" in ent:
-                        want_seq[P_[i]] = ent["is_sequential"]
-            prio2 = [d.exec_nodes[x].priority for x in ids_]
-            seq2 = [bool(d.exec_nodes[x].is_sequential) for x in ids_]
-            if (prio2, seq2) != (want_prio, want_seq) and not (want_refused and real_cfg == "OK"):
-                bad("configuration-not-applied", sc, config=conf_, real=dict(zip(ids_, zip(prio2, seq2))),
-                    want=dict(zip(ids_, zip(want_prio, want_seq))))
-            want2 = spec_cp(preds, want_prio)
-            real2 = [d.graph_ids.compound_priority[x] for x in ids_]
-            if real2 != want2 and not (want_refused and real_cfg == "OK"):
-                bad("cp-table-wrong/after-config", sc, real=dict(zip(ids_, real2)), want=dict(zip(ids_, want2)),
-                    config=conf_)
-            # the same configuration decided by the model (GM.applyConfig), on the table BEFORE it
-            q_ = "cfg %s ; %s" % (" ".join(str(int(b)) for b in seq0), " ; ".join(
-                "s:%s %s %s" % (k_, e_.get("priority", "-"), int(e_["is_sequential"]) if "is_sequential" in e_ else "-")
-                for k_, e_ in keys))
-            blocks.append(G.graph_block("cfg%s" % k, preds, prio, debug, [q_], names=G.scenario_names(sc, ids_, P_)))
-            queries.append(("cfg%s" % k, [("cfg", dict(real=(real_cfg, prio2, seq2, real2), config=conf_))], sc))
-            prio, want_cp = want_prio, want2
+            malformed = None
+            # (directed on the pinned graphs and the first graphs of every run: a valid priority change FIRST, the malformed
+            # entry LAST — the shape that was partly applied before the fix "a refused configuration leaves the DAG untouched")
+            force_mal = isinstance(k, str) or (isinstance(k, int) and k < 12)
+            if force_mal and not any("priority" in e_ for _, e_ in keys):
+                free0_ = [k_ for k_ in ["n%d" % i_ for i_ in range(sc["n"])] if k_ not in [x_ for x_, _ in keys]]
+                if free0_:
+                    keys.insert(0, (free0_[0], {"priority": 50}))
+            if force_mal or rng.random() < 0.25:
+                # a MALFORMED entry (a priority that is not an int; an empty YAML entry) somewhere among valid ones: the whole
+                # configuration is refused and NOTHING of it is applied — the entries before it included
+                free_ = [k_ for k_ in ["n%d" % i_ for i_ in range(sc["n"])] if k_ not in [x_ for x_, _ in keys]]
+                if free_:
+                    malformed = (rng.choice(free_), rng.choice([{"priority": "7"}, {"priority": "high", "is_sequential": True}, None]))
+                    keys.insert(len(keys) if force_mal else rng.randint(0, len(keys)), malformed)
+            # the refused configuration is given again with the malformed entry dropped: it applies, from the untouched state
+            rounds_ = [(list(keys), malformed)] + ([([x_ for x_ in keys if x_ != malformed], None)] if malformed is not None else [])
+            for r_, (keys, malformed) in enumerate(rounds_):
+                conf_ = {"nodes": dict(keys)}
+                try:
+                    expanded = [(i, ent) for key, ent in keys for i in G.resolve_alias(sc, ("str", key))]
+                    want_refused = len({i for i, _ in expanded}) != len(expanded) or malformed is not None
+                except ValueError:
+                    expanded, want_refused = [], True
+                seq0 = [bool(d.exec_nodes[x].is_sequential) for x in ids_]
+                try:
+                    d.config_from_dict(conf_)
+                    if rng.random() < 0.3:
+                        d.config_from_dict(conf_)     # the same dict object given again: still the same configuration
+                    real_cfg = "OK"
+                except ValueError:
+                    real_cfg = "REFUSED"
+                except (TypeError, AttributeError):
+                    if malformed is None:
+                        raise
+                    real_cfg = "REFUSED"
+                if len(keys) > 1:
+                    stats["cp_after_config_multi_entry"] = stats.get("cp_after_config_multi_entry", 0) + 1
+                if any(not k_.startswith("n") or not k_[1:].isdigit() for k_, _ in keys):
+                    stats["cp_after_config_by_tag"] = stats.get("cp_after_config_by_tag", 0) + 1
+                want_prio, want_seq = list(prio), list(seq0)
+                if want_refused:
+                    stats["config_refused"] = stats.get("config_refused", 0) + 1
+                    if real_cfg == "OK":
+                        bad("ambiguous-configuration-accepted", sc, config=conf_)
+                elif real_cfg == "REFUSED":
+                    failures.append(Failure("correspondence", "G-valid-configuration-refused", sc, dict(config=conf_), slice_="G"))
+                else:
+                    for i, ent in expanded:
+                        if "priority" in ent:
+                            want_prio[P_[i]] = ent["priority"]
+                        if "is_sequential" in ent:
+                            want_seq[P_[i]] = ent["is_sequential"]
+                prio2 = [d.exec_nodes[x].priority for x in ids_]
+                seq2 = [bool(d.exec_nodes[x].is_sequential) for x in ids_]
+                if (prio2, seq2) != (want_prio, want_seq) and not (want_refused and real_cfg == "OK"):
+                    bad("refused-configuration-partly-applied" if real_cfg == "REFUSED" else "configuration-not-applied", sc, config=conf_,
+                        real=dict(zip(ids_, zip(prio2, seq2))), want=dict(zip(ids_, zip(want_prio, want_seq))),
+                        table=dict(zip(ids_, [d.graph_ids.compound_priority[x] for x in ids_])))
+                want2 = spec_cp(preds, want_prio)
+                real2 = [d.graph_ids.compound_priority[x] for x in ids_]
+                if real2 != want2 and not (want_refused and real_cfg == "OK"):
+                    bad("cp-table-wrong/after-config", sc, real=dict(zip(ids_, real2)), want=dict(zip(ids_, want2)),
+                        config=conf_)
+                # the same configuration decided by the model (GM.applyConfig), on the table BEFORE it
+                q_ = "cfg %s ; %s" % (" ".join(str(int(b)) for b in seq0), " ; ".join(
+                    ("s:%s ! !" % k_) if (malformed is not None and (k_, e_) == malformed) else
+                    "s:%s %s %s" % (k_, e_.get("priority", "-"), int(e_["is_sequential"]) if "is_sequential" in e_ else "-")
+                    for k_, e_ in keys))
+                blocks.append(G.graph_block("cfg%s_%d" % (k, r_), preds, prio, debug, [q_], names=G.scenario_names(sc, ids_, P_)))
+                queries.append(("cfg%s_%d" % (k, r_), [("cfg", dict(real=(real_cfg, prio2, seq2, real2), config=conf_))], sc))
+                prio, want_cp = want_prio, want2
         # a DAG obtained by compose(): its table must obey the same definition (its node table has no recording order)
         if pid in ("C06", "C07") and rng.random() < 0.4 and sc["n"] >= 2:
             import warnings as _w
@@ -989,13 +1076,15 @@ def run_G(pid, tier, seed):
                 real_cfg, rp, rs, rcp = m["real"]
                 if a[0] != "CFG":
                     raise common.HarnessError("graph driver did not answer a cfg query: %r" % (a,))
+                # accepted or refused, the model gives the state AFTER the call (GM.reconfigure): a refused configuration must
+                # leave priorities, sequential flags and the compound table exactly as they were
+                pi, si, ci = a.index("P"), a.index("S"), a.index("CP")
+                model_c = (a[1], [int(x) for x in a[pi + 1:si]], [x == "1" for x in a[si + 1:ci]], [int(x) for x in a[ci + 1:]])
+                real_c = (real_cfg, rp, rs, rcp)
                 if a[1] == "REFUSED":
-                    model_c = ("REFUSED",)
-                    real_c = (real_cfg,)
-                else:
-                    pi, si, ci = a.index("P"), a.index("S"), a.index("CP")
-                    model_c = ("OK", [int(x) for x in a[pi + 1:si]], [x == "1" for x in a[si + 1:ci]], [int(x) for x in a[ci + 1:]])
-                    real_c = (real_cfg, rp, rs, rcp)
+                    stats["refused_configurations_state_compared"] = stats.get("refused_configurations_state_compared", 0) + 1
+                    if a[2] == "malformed":
+                        stats["malformed_configurations"] = stats.get("malformed_configurations", 0) + 1
                 if model_c != real_c and pid in ("C06", "C07"):
                     failures.append(Failure("correspondence", "G-config(model %s, code %s)" % (model_c[0], real_c[0]), sc,
                                             dict(config=m["config"], model=model_c, real=real_c), slice_="G"))
@@ -1473,7 +1562,7 @@ def run_V_and_nested_tables(pid, tier, seed):
     return cov, fs + kfs, searcher
 
 
-reg("C20", ["Props.C20_nested_inlining_partial", "VM.traceStmts_good", "VM.bindParamRefs_good", "Props.C01_core", "Props.C20_spliced_ids_distinct"] + FLAG_THMS, run_V_and_nested_tables, ASSUME_V)
+reg("C20", ["Props.C20_nested_inlining_partial", "VM.traceStmts_good", "VM.bindParamRefs_good", "Props.C01_core", "Props.C20_spliced_ids_distinct"] + FLAG_THMS, with_S(run_V_and_nested_tables), ASSUME_V)
 reg("C10", ["Props.C10_flag_reads_full_reference", "Props.C10_execution_inactive_none", "Props.C10_active_runs", "Props.C03_exactly_once_at_done", "Props.C01_core", "Props.C01_flat_partial", "Props.C20_nested_inlining_partial"] + FLAG_THMS, run_V, ASSUME_V)
 
 
@@ -1734,18 +1823,6 @@ def with_malformed(run, kinds):
     return wrapped
 
 
-def with_S(run):
-    """... and the scheduler slice on DAGs with debug nodes: which nodes really execute, and with which values."""
-    def wrapped(pid, tier, seed):
-        cov, fs, searcher = run(pid, tier, seed)
-        covs, fss, _ = run_S(pid, tier, seed)
-        cov["scheduler_runs"] = {k: v for k, v in covs.items() if k not in ("samples",)}
-        cov["evaluations"] += covs["evaluations"]
-        cov["rule"] += "; plus slice S: " + covs["rule"]
-        return cov, fs + fss, searcher
-    return wrapped
-
-
 reg("C13", ["Props.C13_pulled_debug_has_inputs", "Props.C13_flag_off_no_debug", "Props.C13_debug_nodes_never_influence", "Props.C12_selection_is_closure",
             "Props.C13_C11_build_rule", "Props.C13_accepted_table_debug_never_influences"],
     with_malformed(with_S(run_G), ["normal-on-debug"]), ASSUME_G)
@@ -1862,7 +1939,12 @@ PROPS["C10"]["run"] = run_V_and_composed_flags
 reg("C15", ["Props.C15_no_state_but_setup", "Props.C15_next_call_depends_only_on_setup_state", "Props.C15_failed_operation_is_a_noop", "VM.applyOp_res_nonsetup", "Props.C01_core",
             "Props.C15_executor_single_use", "Props.C15_executor_run_is_complete", "Props.C15_executor_no_state_but_setup",
             "Props.C15_call_after_history_is_fresh", "Props.C11_setup_value_independent_of_arguments",
-            "Props.C15_call_after_any_history", "Props.C15_closedSel_decidable", "Props.C11_sub_selection_same_setup_values"], run_H_and_composeprobe, ASSUME_H)
+            "Props.C15_call_after_any_history", "Props.C15_closedSel_decidable", "Props.C11_sub_selection_same_setup_values",
+            "Props.C15_accepted_table_call_after_history_is_fresh", "Props.C13_C11_build_rule"],
+    # "a call depends on its arguments and the setup state only" rests on the build rule that no setup node depends on a DAG
+    # argument (required or defaulted): descriptions that break it must be refused (VM.validateB), else an argument of one
+    # call reaches every later call through the kept setup value
+    with_malformed(run_H_and_composeprobe, ["setup-on-arg"]), ASSUME_H)
 reg("C18", ["Props.C18_restart_same", "Props.C18_restart_runs_only_uncached", "VM.denote_seeded", "Props.C18_cache_roundtrip",
             "Props.C18_checkpoint_chain", "Props.C18_chain_runs_nothing_twice", "Props.C18_write_back_keeps", "Props.C18_chain_hypothesis_met"], run_H, ASSUME_H)
 
@@ -1894,6 +1976,14 @@ def run_C(pid, tier, seed):
             except BaseException as e:  # noqa: BLE001   (the original itself may raise on these arguments)
                 return ("RAISES", type(e).__name__)
         probe_before = probe()
+        if rng.random() < 0.4:
+            # the original has a past: it was run through an executor object with explicit arguments (also for the defaulted
+            # parameter) — compose takes constants and DEFAULTS from the original, never an argument of an earlier run
+            try:
+                C.run_sync(d.executor()(5, 6))
+            except BaseException:  # noqa: BLE001   (the original itself may raise on these arguments)
+                pass
+            stats["executor_run_before_compose"] = stats.get("executor_run_before_compose", 0) + 1
         qlines, cases = [], []
         small_exhaustive = tier == "thorough" and n <= 3
         pairs = []
@@ -2087,7 +2177,9 @@ def run_T(pid, tier, seed):
              # a thread whose describing function RAISED earlier calls a DAG / a function while another thread builds
              [["B", "R2", "A", "D0"], ["B", "R1", "E"]], [["B", "A", "F1"], ["B", "R3", "E"]],
              # an executor object called while another thread builds
-             [["B", "R1", "E"], ["X0"]], [["X1", "B", "R0", "E"], ["B", "R2", "E", "X0"]]]
+             [["B", "R1", "E"], ["X0"]], [["X1", "B", "R0", "E"], ["B", "R2", "E", "X0"]],
+             # a built DAG reconfigured (its nodes re-created) while another thread builds
+             [["B", "R1", "E"], ["C0"]], [["B", "R0", "R2", "E"], ["C1", "D1"]]]
     if tier == "thorough":
         small += [[["B", "R1", "E"], ["D0"], ["F3"]], [["B", "R1", "E", "D0"], ["D1", "B", "R2", "E"]],
                   [["B", "R0", "E"], ["F1"], ["B", "R2", "E"]]]
